@@ -899,7 +899,7 @@ func (x *Exec) evalCall(env *Env, e *SExpr) Val {
 			return mathVal(t)
 		}
 		return mathVal(FalseT)
-	case "signalled", "held", "waited":
+	case "signalled", "held", "waited", "broadcast":
 		return x.monitorPred(env, name, e.Args)
 	case "fresh":
 		v := arg(0)
